@@ -38,6 +38,8 @@ class SrtParagraph:
   _EOL_SEQ_RE = re.compile(r"\n{2,}")
   # a carriage return in the text is a line terminator for SRT readers
   _LINE_BREAK_RE = re.compile(r"\r\n|\r|\n")
+  # formatting tags written by the SRT writer
+  _TAG_RE = re.compile(r"</?[biu]>|<font color=\"[^\"]*\">|</font>")
 
   def __init__(self, identifier: int):
     self._id: int = identifier
@@ -67,8 +69,9 @@ class SrtParagraph:
     return self._end
 
   def is_only_whitespace(self):
-    """Returns whether the paragraph tex contains only whitespace or is empty"""
-    return len(self._text) == 0 or self._text.isspace()
+    """Returns whether the paragraph text, formatting tags excluded, contains only whitespace or is empty"""
+    text = self._TAG_RE.sub("", self._text)
+    return len(text) == 0 or text.isspace()
 
   def normalize_eol(self):
     """Remove line breaks at the beginning and end of the paragraph, and replace
